@@ -130,14 +130,15 @@ TissueVerdict(e) ==
       cl == e.cells
       inputOK == /\ Len(cycles) >= 1 /\ Len(pos) = m.nv /\ Len(isb) = m.nv
                  /\ \A c \in Cs : Len(cycles[c]) >= 3 /\ \A i \in DOMAIN cycles[c] : cycles[c][i] \in 1..m.nv
-      poly == [c \in Cs |-> PolyOf(pos, cycles[c])]
+      poly == Mat([c \in Cs |-> PolyOf(pos, cycles[c])])
+      nbs  == Mat([c \in Cs |-> Neighbours(cycles, c)])
       allSimple == inputOK /\ \A c \in Cs : Simple(poly[c])
       raisedAny == e.raised # "" \/ \E c \in DOMAIN cl : cl[c].raised # ""
       outOK == inputOK /\ ~raisedAny /\ Len(cl) = Len(cycles)
                /\ \A c \in Cs : WellFormedSM(cl[c].a) /\ cl[c].sign \in {-1, 0, 1} /\ Len(cl[c].per) = 2
       subdiv == {c \in Cs : \E i \in DOMAIN cycles[c] : ~isb[cycles[c][i]]}
       straight == {c \in subdiv : StraightOK(pos, cycles[c], isb) /\ Len(JuncCycle(cycles[c], isb)) >= 3}
-      holefree == allSimple /\ HoleFree(pos, cycles)
+      holefree == allSimple /\ HoleFreeArrangement(pos, cycles)
       fails ==
         (IF allSimple /\ raisedAny THEN {"C20.raised"} ELSE {})
         \cup (IF outOK /\ \E c \in Cs : ~(AreaValueOK(cl[c].a, Area2(poly[c])) /\ cl[c].sign = Sgn(Area2(poly[c])))
@@ -149,13 +150,13 @@ TissueVerdict(e) ==
         \cup (IF outOK /\ allSimple /\ \E c \in Cs : ~PerimeterOK(poly[c], cl[c].per, 3) THEN {"C20.perimeter"} ELSE {})
         \cup (IF outOK /\ holefree /\ ~AreaSumOK([c \in Cs |-> cl[c].a], OutlineArea2(pos, cycles), TolArea)
               THEN {"C20.tissue_area_sum"} ELSE {})
-        \cup (IF outOK /\ \E c \in Cs : Rn(cl[c].nb) # Neighbours(cycles, c) THEN {"C20.neighbours"} ELSE {})
+        \cup (IF outOK /\ \E c \in Cs : Rn(cl[c].nb) # nbs[c] THEN {"C20.neighbours"} ELSE {})
       hits ==
         (IF outOK THEN {"C20.area_value", "C20.neighbours"} ELSE {})
         \cup (IF outOK /\ straight # {} THEN {"C20.area_subdivision_invariant"} ELSE {})
         \cup (IF outOK /\ allSimple THEN {"C20.area_sign_convention", "C20.perimeter"} ELSE {})
         \cup (IF outOK /\ holefree THEN {"C20.tissue_area_sum"} ELSE {})
-        \cup (IF outOK /\ \E c \in Cs : Neighbours(cycles, c) # {} THEN {"C20.neighbours_nonempty"} ELSE {})
+        \cup (IF outOK /\ \E c \in Cs : nbs[c] # {} THEN {"C20.neighbours_nonempty"} ELSE {})
         \cup (IF allSimple THEN {"C20.raised"} ELSE {})
       rejected == ~allSimple
   IN  EmitV(e, fails, {}, hits, {}, rejected)
